@@ -14,7 +14,7 @@ out.append("### 11.2 Independently seeded breakages (`seeded/<id>/`)\n")
 out.append("Each was written by a fresh sub-agent that saw only the property text and its own scratch worktree, and was confirmed here (`tools/seedcheck.py`: patch applies, builds with and without `-tags verif`, 34 baseline tests pass, demonstration fails with the change and passes without) before the check was run against it.\n")
 out.append("| seed | what was changed / what it needs to manifest | caught by (first violation reported) | tier |")
 out.append("|---|---|---|---|")
-tot = caught_q = caught_t = 0
+tot = caught_q = caught_t = superseded = 0
 for d in sorted(glob.glob(os.path.join(V, "seeded", "*"))):
     try:
         m = json.load(open(os.path.join(d, "meta.json")))
@@ -32,16 +32,20 @@ for d in sorted(glob.glob(os.path.join(V, "seeded", "*"))):
         caught_t += 1
         tier = "thorough"
         fv = t.get("first_violation", "")
+    elif m.get("superseded_by_fix"):
+        superseded += 1
+        tier = "superseded"
+        fv = "no longer applicable: " + m["superseded_by_fix"]
     else:
         tier = "**missed**"
         fv = ""
     note = m.get("lead_note", "")
-    fv = re.sub(r"\s+", " ", fv).strip().replace("|", "/")[:170]
+    fv = re.sub(r"\s+", " ", fv).strip().replace("|", "/")[:(400 if tier == "superseded" else 170)]
     what = (m.get("summary", "") + " — needs: " + m.get("needs_to_manifest", "")).replace("|", "/")
     what = re.sub(r"\s+", " ", what)[:330]
     out.append("| %s | %s | %s %s | %s |" % (os.path.basename(d), what, fv, ("(" + note + ")") if note else "", tier))
 out.append("")
-out.append("Totals: %d confirmed seeded breakages; %d caught by the quick tier, %d more by the thorough tier, %d missed.\n" % (tot, caught_q, caught_t, tot - caught_q - caught_t))
+out.append("Totals: %d confirmed seeded breakages; %d caught by the quick tier, %d more by the thorough tier, %d made inapplicable by the repair of the defect its check found (F49), %d missed.\n" % (tot, caught_q, caught_t, superseded, tot - caught_q - caught_t - superseded))
 txt = "\n".join(out)
 p = os.path.join(V, "DESIGN.md")
 s = open(p).read()
